@@ -48,12 +48,19 @@ class LawLog:
             ctx.machinery("LawTrace failed:\n" + r.counterexample())
         bad = set(i for j in r.json if j.get("k") == "BAD" for i in j["s"])
         known = set(i for j in r.json if j.get("k") == "KNOWN" for i in j["s"])
-        blocks_seen = len(re.findall(r'<<"BLOCK", ', r.out))
+        blocks_seen = sum(1 for j in r.json if j.get("k") == "BLOCK")
         if blocks_seen != len(blocks):
             ctx.machinery("LawTrace reported %d of %d blocks" % (blocks_seen, len(blocks)))
         for pos in known:
             law, region, units, k, case = self.events[evs[pos - 1]]
             ctx.violation(law, {"law": law, "region": region, "case": case}, tags=[k])
+        summary = {}
+        for pos in bad:
+            law, region, units, k, case = self.events[evs[pos - 1]]
+            if not (k and k in ctx.known):
+                summary[(law, region)] = summary.get((law, region), 0) + 1
+        for (law, region), cnt in sorted(summary.items()):
+            print("  law violated: %-45s region %-32s %d case(s)" % (law, region, cnt))
         for n, pos in enumerate(sorted(bad)):
             law, region, units, k, case = self.events[evs[pos - 1]]
             if n < max_report:
@@ -62,6 +69,7 @@ class LawLog:
             else:
                 ctx.violations += 1
         counts = {}
-        for m in re.finditer(r'<<"BLOCK", "([^"]*)", "([^"]*)", (\d+)>>', r.out):
-            counts[(m.group(1), m.group(2))] = int(m.group(3))
+        for j in r.json:
+            if j.get("k") == "BLOCK":
+                counts[(j["law"], j["region"])] = int(j["n"])
         return counts
